@@ -75,6 +75,7 @@ type Knobs struct {
 	TwoPhase        bool // registrations first, invocations later
 	PSoftSibling    int  // a soft group leaf gets a sibling whose constructor feeds that group (C11)
 	PReencode       int  // C15: probability that a function gets an alternative equivalent encoding
+	WrapAlt         bool // C15: the alternative encoding only wraps runs of consecutive parameters into (nested) dig.In objects, keeping their order
 	PSide           int  // a constructor / decorator body calls String, Visualize, Scope, Provide or Decorate (of an unrelated key) on the container
 	PReenter        int  // C02: probability that a constructor body calls back into the container
 	PZeroRes        int  // a single result / group member is returned as the zero value
@@ -409,6 +410,22 @@ func (g *gen) encodeParams(leaves []pleaf) []Param {
 			fields := objs[oi]
 			out[i] = g.nestParams(fields, fmt.Sprintf("nest%d", oi), 0)
 		}
+	}
+	return out
+}
+
+// wrapParams folds a run of consecutive parameters into a dig.In object
+// (once or twice), keeping the order of all leaves.
+func (g *gen) wrapParams(ps []Param) []Param {
+	out := append([]Param(nil), ps...)
+	for round := 0; round < 2 && len(out) > 0; round++ {
+		if round == 1 && !g.pct(40, "wrap2") {
+			break
+		}
+		i := g.pick(len(out), fmt.Sprintf("wrapi%d", round))
+		j := i + g.pick(len(out)-i, fmt.Sprintf("wrapj%d", round))
+		w := Param{IsObj: true, Obj: append([]Param(nil), out[i:j+1]...)}
+		out = append(append(append([]Param(nil), out[:i]...), w), out[j+1:]...)
 	}
 	return out
 }
@@ -776,10 +793,13 @@ func (g *gen) genProvide(s int) Op {
 		op.O = o
 	}
 	if g.pct(g.k.PReencode, "reenc") {
-		af := &Fn{ID: f.ID, Err: f.Err, Var: f.Var, Faults: f.Faults, Dur: f.Dur}
+		af := &Fn{ID: f.ID, Err: f.Err, ErrAt: f.ErrAt, Var: f.Var, Faults: f.Faults, EK: f.EK, PK: f.PK, Dur: f.Dur}
 		ao := *o
 		af.P = g.encodeParamsAlt(pl)
 		switch {
+		case g.k.WrapAlt:
+			af.P = g.wrapParams(f.P)
+			af.R = f.R
 		case useAs:
 			af.R = f.R // As needs the positional/option form
 		case useNameOpt || useGroupOpt:
@@ -896,9 +916,12 @@ func (g *gen) genDecorate(s int) (Op, bool) {
 	}
 	var altF *Fn
 	if g.pct(g.k.PReencode, "reenc") {
-		af := &Fn{ID: f.ID, Err: f.Err, Var: f.Var, Faults: f.Faults, Dur: f.Dur}
+		af := &Fn{ID: f.ID, Err: f.Err, ErrAt: f.ErrAt, Var: f.Var, Faults: f.Faults, EK: f.EK, PK: f.PK, Dur: f.Dur}
 		af.P = g.encodeParamsAlt(pl)
 		af.R = g.encodeResults(rl, g.pct(50, "forceobj"))
+		if g.k.WrapAlt {
+			af.P, af.R = g.wrapParams(f.P), f.R
+		}
 		if af.Var == "" && g.pct(40, "addvar") {
 			af.Var = g.pickStr(g.k.Types, "avart")
 		}
@@ -998,8 +1021,11 @@ func (g *gen) genInvoke(s int) Op {
 	}
 	g.faults(f)
 	if g.pct(g.k.PReencode, "reenc") {
-		af := &Fn{ID: f.ID, Err: f.Err, Faults: f.Faults}
+		af := &Fn{ID: f.ID, Err: f.Err, Faults: f.Faults, EK: f.EK, PK: f.PK}
 		af.P = g.encodeParamsAlt(ipl)
+		if g.k.WrapAlt {
+			af.P = g.wrapParams(f.P)
+		}
 		if g.pct(40, "addvar") {
 			af.Var = g.pickStr(g.k.Types, "avart")
 		}
